@@ -20,7 +20,7 @@ extern "C" void harness_c12_eval()
     Recipe r;
     r.root = g.gen(r, (int)verif_param("depth", 2), "t");
     ve::Env env;
-    RCP<const Basic> e = build(r, r.root);
+    RCP<const Basic> e = build_or_skip(r, r.root);
     Dual ref = eval(r, r.root, env, "");
     double v1 = 0, v2 = 0, v3 = 0;
     bool threw = false;
